@@ -292,19 +292,19 @@ def r2(ctx, retsets):
         is_len = lambda x: x[0] == "load" and vf.last_field(x[1]) == "node_data.len"
         empty = bool(G.find_eq(is_len, lambda y: y == ("c", 0))) or G.false(is_len)
         ctx.check(empty, "C02.R2", "pfx_table_remove:release-iff-empty", c.loc(), "trie_remove is reached only when the node's element array became empty", key="C02.R2:remove:empty")
-    for s in [i for i in fn2.all_insts() if i.op == "store" and vf.store_field(i) in ("pfx_table.ipv4", "pfx_table.ipv6")]:
-        G = es.Guards(fn2, s)
-        isroot = bool(G.find_eq(lambda x: x[0] == "call" and x[1] == "trie_remove", lambda y: y[0] == "call" and y[1] == "pfx_table_get_root"))
-        ctx.check(isroot, "C02.R2", "pfx_table_remove:root-cleared-iff-root-released", s.loc(), "root pointer cleared under 'released node == root'", key="C02.R2:remove:root")
     # decision table: released node is / is not the root, per address family
     v4 = pdb.enum_value("LRTR_IPV4")
     v6 = pdb.enum_value("LRTR_IPV6")
     VER = ("fld", ("fld", ("arg", 1), "pfx_record.prefix"), "lrtr_ip_addr.ver")
     for isroot in (True, False):
         for ver, fam in ((v4, "pfx_table.ipv4"), (v6, "pfx_table.ipv6")):
-            def oracle(inst, pred, a, b, E):
-                if pred in ("eq", "ne") and {a[0], b[0]} == {"call"} and {a[1], b[1]} == {"trie_remove", "pfx_table_get_root"}:
-                    return isroot if pred == "eq" else not isroot
+            # on pointer values (however the comparison and the root's address are written): the family's root is node 600, the
+            # released node is 600 or another node
+            RV, XV = 600, 700
+
+            def values3(pe):
+                if pe[0] == "fld" and pe[1] == ("arg", 0) and pe[2] in ("pfx_table.ipv4", "pfx_table.ipv6"):
+                    return RV
                 return None
 
             def classify3(inst, E, st):
@@ -312,12 +312,16 @@ def r2(ctx, retsets):
                     return [([], {inst.ref: ("nin", frozenset([0]))})]
                 if inst.op == "call" and inst.callee == "pfx_table_del_elem":
                     return [([], {inst.ref: flow.av_in(0)})]
+                if inst.op == "call" and inst.callee == "pfx_table_get_root":
+                    return [([], {inst.ref: flow.av_in(RV)})]
                 if inst.op == "call" and inst.callee == "trie_remove":
-                    return [(["released"], {inst.ref: ("nin", frozenset([0]))})]
-                if inst.op == "store" and vf.store_field(inst) in ("pfx_table.ipv4", "pfx_table.ipv6"):
-                    return ["clear:" + vf.store_field(inst) if flow.av_single(E.val(inst["val"])) == 0 else "store:" + vf.store_field(inst)]
+                    return [(["released"], {inst.ref: flow.av_in(RV if isroot else XV)})]
+                if inst.op == "store":
+                    f = vf.last_field(E.path_expr(inst["ptr"]))
+                    if f in ("pfx_table.ipv4", "pfx_table.ipv6") and vf.root_of(E.path_expr(inst["ptr"])) == ("arg", 0):
+                        return ["clear:" + f if flow.av_single(E.val(inst["val"])) == 0 else "store:" + f]
                 return None
-            outs3, fl3 = es.count_effects(fn2, pdb, classify3, retsets, oracle=oracle, cell={VER: ver})
+            outs3, fl3 = es.count_effects(fn2, pdb, classify3, retsets, values=values3, cell={VER: ver})
             rel = [o for o in outs3 if o["counts"].get("released")]
             exp = {"released": 1, "clear:" + fam: 1} if isroot else {"released": 1}
             ctx.check(bool(rel) and all(o["counts"] == exp for o in rel), "C02.R2", "pfx_table_remove:root[%s,%s]" % ("root" if isroot else "inner node", fam.split(".")[1]),
